@@ -90,6 +90,21 @@ class C17Hook:
             if rec.get("zip"):
                 exp = rename_first(exp)  # interleaved generators of one stream: ids compared up to per-source renaming
             d = engine.first_diff(exp, act, "$source[%d].envelopes" % si)
+            if d and not accepted and ts.cur_first.get(s["sidx"] if s.get("sidx") is not None else op["s"]):
+                # the caller set stream.parser.stop_at_first_error: a rejected source is reported either by its first
+                # error alone (the flag is honoured) or by all its errors (an implementation that does not parse with
+                # that parser object) - never by anything else, in particular never by nothing at all
+                self.stats["first_error_mode_sources"] = self.stats.get("first_error_mode_sources", 0) + 1
+                exp1 = model_source(text, uri, opts, 0, mem["mediaType"] if mem is not None else "text/x.cucumber.gherkin+plain", True)[0]
+                if s["status"] in ("foreign", "abandoned"):
+                    exp1 = exp1[:len(act)]
+                if rec.get("zip"):
+                    exp1 = rename_first(exp1)
+                d1 = engine.first_diff(exp1, act, "$source[%d].envelopes" % si)
+                if d1:
+                    exp = {"all errors": exp, "or the first error alone": exp1}
+                else:
+                    d = None
             if d:
                 run.violation("C17-model", ts.ti, oi, d, exp, act)
             self._shape(run, ts, oi, si, s["snap"])
@@ -323,6 +338,11 @@ def gen_hist(rng):
             ops.insert(at, {"op": "write", "path": p, "text": text})
             ops.insert(at + 1, {"op": "stream", "s": ops[at - 1]["s"], "paths": [p], "consumer": {"k": "drain"}})
             labels.append("rewrite:" + label)
+    if rng.random() < 0.12:
+        ops.insert(rng.randrange(len(ops)), {"op": "setmode", "s": rng.randrange(nstreams), "first": True})
+        if rng.random() < 0.3:
+            ops.insert(rng.randrange(len(ops) + 1), {"op": "setmode", "s": ops[0].get("s", 0) if ops[0]["op"] == "setmode" else rng.randrange(nstreams), "first": rng.random() < 0.5})
+        labels.append("setmode")
     if len(ops) > 1 and rng.random() < 0.15:
         at = rng.randint(1, len(ops) - 1)
         ops.insert(at, {"op": "setopts", "s": rng.randrange(nstreams), "o": ALL_OPTS[rng.randrange(8)], "how": rng.choice(["mutate", "replace"])})
